@@ -1058,6 +1058,11 @@ func (f *Frame) alloc(st *State) *Term {
 	r := c.fresh("new", SInt)
 	al := c.heapGet(st, "ALLOC", ArrSort(SInt, SBool))
 	c.assume(st, And(Ne(r, IntLit(0)), Not(Select(al, r))))
+	// allocation only grows: an object allocated now did not exist when the function was entered (stated directly;
+	// otherwise the solver has to walk back through every intermediate allocation state)
+	if a0 := c.heapInitE("ALLOC", st.epoch); !same(a0, al) {
+		c.assume(st, Not(Select(a0, r)))
+	}
 	c.heapSet(st, "ALLOC", Store(al, r, TTrue))
 	return r
 }
